@@ -107,6 +107,7 @@ class Shard:
                     "GOMAXPROCS": str(self.spec.get("gomaxprocs", 4)),
                     "GOTRACEBACK": "all"})
         if self.spec.get("race"):
+            env["VERIF_RACE"] = "1"
             env["GORACE"] = "halt_on_error=0 log_path=%s" % os.path.join(self.rundir, "race.%s.%d" % (self.passname, self.i))
         f = self.frm()
         if f:
@@ -212,33 +213,35 @@ RACE_SPLIT = re.compile(r"^==================\s*$", re.M)
 FRAME = re.compile(r"^\s+(\S+)\(.*\)\s*$|^\s+(\S+)\(\)\s*$")
 
 
+def first_user_frame(section):
+    """first frame of an access stack that is not in the Go standard library"""
+    lines = section.splitlines()
+    for k in range(len(lines) - 1):
+        m = re.match(r"^\s+(\S+)\(\S*\)\s*$", lines[k])
+        if not m:
+            continue
+        loc = lines[k + 1].strip()
+        if "/src/" in loc and ("/go1." in loc or "/go/src/" in loc or "GOROOT" in loc):
+            continue  # standard library / runtime
+        return re.sub(r"\.func\d+(\.\d+)*$", "", m.group(1))
+    return "?"
+
+
 def parse_race_logs(rundir, passname):
+    """returns {key: {...}}; key = ('corebgp'|'harness', frameA, frameB)"""
     reports = {}
     for path in glob.glob(os.path.join(rundir, "race.%s.*" % passname)):
+        if path.endswith(".jsonl") or path.endswith(".log"):
+            continue
         txt = open(path, errors="replace").read()
         for blk in RACE_SPLIT.split(txt):
             if "WARNING: DATA RACE" not in blk:
                 continue
-            # split into access sections
             secs = re.split(r"\n\n", blk.strip())
-            tops = []
-            involves = False
-            for s in secs[:2]:
-                top = None
-                for line in s.splitlines():
-                    m = re.match(r"^\s+(github\.com/jwhited/corebgp\.[^\s(]+)", line)
-                    if m:
-                        top = m.group(1)
-                        break
-                if top:
-                    involves = True
-                tops.append(top or "?")
-            if not involves and "github.com/jwhited/corebgp." not in "\n".join(secs[:2]):
-                # neither access is in corebgp code: harness-only race, reported separately
-                key = ("harness",) + tuple(sorted(tops))
-            else:
-                key = tuple(sorted(tops))
-            reports.setdefault(key, {"count": 0, "text": blk.strip()[:6000]})
+            tops = sorted(first_user_frame(s) for s in secs[:2])
+            kind = "corebgp" if all(t.startswith("github.com/jwhited/corebgp.") for t in tops) else "harness"
+            key = (kind,) + tuple(tops)
+            reports.setdefault(key, {"count": 0, "text": blk.strip()[:8000]})
             reports[key]["count"] += 1
     return reports
 
@@ -360,10 +363,13 @@ def main():
             starts[(r["pass"], r["family"], r["idx"])] = r.get("params")
 
     race_list = []
+    harness_races = []
     for k, v in races.items():
         if k and k[0] == "harness":
-            infos.append({"family": "race", "harness_only_race": list(k[1:]), "count": v["count"]})
+            harness_races.append({"frames": list(k[1:]), "count": v["count"], "text": v["text"]})
+            infos.append({"family": "race", "race_with_a_harness_access": list(k[1:]), "count": v["count"]})
             continue
+        k = k[1:]
         race_list.append({"frames": list(k), "count": v["count"], "pass": v["pass"]})
         fk = ""
         for (pp, kk), ent in known.items():
@@ -440,6 +446,10 @@ def main():
     rc = 0
     if new_v:
         rc = 1
+    elif harness_races:
+        for h in harness_races[:5]:
+            print("HARNESS-RACE (a race whose accesses are not both in corebgp; fix the harness): %s x%d\n%s" % (h["frames"], h["count"], h["text"][:3000]))
+        rc = 2
     elif infra:
         for x in infra:
             print("INFRASTRUCTURE: " + x["why"] + "\n" + x.get("tail", ""))
